@@ -2,11 +2,11 @@ SPECIFICATION Spec
 CONSTANTS
   MaxSlot = 5
   MaxVer = 1
-  MaxReorgs = 1
+  MaxReorgs = 2
   MaxCrashes = 0
   Gates = {}
-  Interleave = FALSE
+  Interleave = TRUE
   Cfgs <- MCCfgs
-  OraclesFor <- MCOraclesA
+  OraclesFor <- MCOraclesAB
 INVARIANTS TypeOK JobTimeRight JobCoversExactly NoSlotTwice OneJobPerDutySlot OnlyStrictlyLaterOnStart SyncWindowRight EpochTickOnce NoFutureDutyUnscheduled NoStaleJob ReorgActedOn
 CHECK_DEADLOCK FALSE
